@@ -14,7 +14,7 @@ from pyxform.errors import PyXFormError  # noqa: E402
 
 OUTSIDE = "texts longer than 3 characters per segment (extension rests on the per-character escaping structure shown in C01); labels containing 'instance(' (C lexer); smart quotes and white space (documented normalisations, C13); CR (XML end-of-line normalisation)"
 ASSUMPTIONS = [
-    "alphabet: XML 1.0 Char minus white space, '$', U+2018/2019/201C/201D (documented smart-quote normalisation)",
+    "alphabet: contiguous code point ranges inside XML 1.0 Char that contain no white space and no smart quotes (U+0021-U+167F, U+2030-U+2FFF, U+3001-U+D7FF, U+10000-U+10FFFF), minus '$', NEL, NBSP",
     "S5 pure-Python XML parser model in place of expat inside CrossHair (validated against expat on every witness replay); S9 find_boundaries -> [] for texts shorter than 'instance('; S10 default_is_dynamic -> False for the static-default channel (alphabet has no dynamic trigger)",
     "S1-S4 shims inside CrossHair; witnesses re-run without them",
 ]
@@ -116,52 +116,75 @@ def channel_ok(ch: int, t: str):
     return True
 
 
-_CH = "(c{i} == 33 or c{i} == 35 or 37 <= c{i} <= 8215 or 8218 <= c{i} <= 8219 or 8222 <= c{i} <= 55295 or 57344 <= c{i} <= 65533 or 65536 <= c{i} <= 1114111) and c{i} != 133 and c{i} != 160 and c{i} != 5760 and not (8192 <= c{i} <= 8202) and c{i} != 8232 and c{i} != 8233 and c{i} != 8239 and c{i} != 8287 and c{i} != 12288"
-# 34 (") is re-admitted separately below; 36 ($) excluded
+# contiguous ranges only (a disjunction in a precondition forks the search per character)
+C06_RANGES = {
+    "L": (33, 5759),      # ASCII + Latin ... ; excluded below: '$', NEL, NBSP (documented white space)
+    "M": (8240, 12287),   # punctuation / symbols after the smart quotes and Unicode spaces
+    "H": (12289, 55295),  # CJK etc.
+    "A": (65536, 1114111),  # astral planes
+}
 
 
-def c06_channel(ch: int, n: int, c0: int, c1: int, c2: int) -> bool:
+def c06_channel(ch: int, rp: int, n: int, c0: int, c1: int, c2: int) -> bool:
     """
-    vpre: (c0 == 33 or c0 == 34 or c0 == 35 or 37 <= c0 <= 8215 or 8218 <= c0 <= 8219 or 8222 <= c0 <= 55295 or 57344 <= c0 <= 65533 or 65536 <= c0 <= 1114111) and c0 != 133 and c0 != 160 and c0 != 5760 and not (8192 <= c0 <= 8202) and c0 != 8232 and c0 != 8233 and c0 != 8239 and c0 != 8287 and c0 != 12288
-    vpre: (c1 == 33 or c1 == 34 or c1 == 35 or 37 <= c1 <= 8215 or 8218 <= c1 <= 8219 or 8222 <= c1 <= 55295 or 57344 <= c1 <= 65533 or 65536 <= c1 <= 1114111) and c1 != 133 and c1 != 160 and c1 != 5760 and not (8192 <= c1 <= 8202) and c1 != 8232 and c1 != 8233 and c1 != 8239 and c1 != 8287 and c1 != 12288
-    vpre: (c2 == 33 or c2 == 34 or c2 == 35 or 37 <= c2 <= 8215 or 8218 <= c2 <= 8219 or 8222 <= c2 <= 55295 or 57344 <= c2 <= 65533 or 65536 <= c2 <= 1114111) and c2 != 133 and c2 != 160 and c2 != 5760 and not (8192 <= c2 <= 8202) and c2 != 8232 and c2 != 8233 and c2 != 8239 and c2 != 8287 and c2 != 12288
+    vpre: RLO[rp][0] <= c0 <= RLO[rp][1] and 33 <= c1 <= 5759 and 33 <= c2 <= 5759
+    vpre: c0 != 36 and c0 != 133 and c0 != 160 and c0 != 8287
+    vpre: c1 != 36 and c1 != 133 and c1 != 160
+    vpre: c2 != 36 and c2 != 133 and c2 != 160
     vpost: _ == True
     """
     return channel_ok(ch, S(*((c0, c1, c2)[:n])))
 
 
+RLO = [C06_RANGES["L"], C06_RANGES["M"], C06_RANGES["H"], C06_RANGES["A"]]
+
 specialise(
     "C06",
     "a.channel",
     c06_channel,
-    {"ch": list(range(14)), "n": [2]},
+    {"ch": list(range(14)), "rp": [0], "n": [2]},
     tiers=("quick", "thorough"),
     timeout=400,
     kernel=K,
     shims=("S1", "S2", "S3", "S4", "S5", "S9", "S10"),
-    symbolic="cell text of n symbolic code points over XML Char minus white space, '$' and smart quotes",
-    bounds="text length fixed per instance; one text channel per instance (label, hint, itext label, guidance, constraint/required message, choice label, choice extra column, static default, title, version, appearance, custom bind attribute, group label)",
+    symbolic="cell text of 2 symbolic code points over U+0021-U+167F minus '$', NEL, NBSP",
+    bounds="text length 2; one text channel per instance (label, hint, itext label, guidance, constraint/required message, choice label, choice extra column, static default, title, version, appearance, custom bind attribute, group label)",
     weight=120,
 )
 specialise(
     "C06",
     "a.channel",
     c06_channel,
-    {"ch": list(range(14)), "n": [3]},
-    tiers=("thorough",),
-    timeout=1500,
+    {"ch": [0, 2, 4, 5, 8], "rp": [3], "n": [1]},
+    reach_if=lambda fx: False,
+    tiers=("quick", "thorough"),
+    timeout=300,
     kernel=K,
     shims=("S1", "S2", "S3", "S4", "S5", "S9", "S10"),
-    symbolic="cell text of n symbolic code points over XML Char minus white space, '$' and smart quotes",
-    bounds="text length 3 (covers ']]>' and '&lt' style sequences)",
-    weight=900,
+    symbolic="cell text of 1 symbolic astral code point (U+10000-U+10FFFF)",
+    bounds="text length 1; channels label, itext label, constraint message, choice label, title",
+    weight=40,
+)
+specialise(
+    "C06",
+    "a.channel",
+    c06_channel,
+    {"ch": list(range(14)), "rp": [0, 1, 2, 3], "n": [3]},
+    reach_if=lambda fx: fx["rp"] == 0,
+    tiers=("thorough",),
+    timeout=2400,
+    kernel=K,
+    shims=("S1", "S2", "S3", "S4", "S5", "S9", "S10"),
+    symbolic="cell text of 3 symbolic code points; first over the range pattern, the others over U+0021-U+167F",
+    bounds="text length 3 (covers ']]>' and '&lt' style sequences); first-character range fixed per instance over U+0021-U+167F / U+2030-U+2FFF / U+3001-U+D7FF / astral",
+    weight=1200,
 )
 
 
 def c06_with_ref(ch: int, n1: int, n2: int, a0: int, a1: int, b0: int, b1: int) -> bool:
     """
-    vpre: (a0 == 33 or a0 == 34 or a0 == 35 or 37 <= a0 <= 126) and (a1 == 33 or a1 == 34 or a1 == 35 or 37 <= a1 <= 126)
-    vpre: (b0 == 33 or b0 == 34 or b0 == 35 or 37 <= b0 <= 126) and (b1 == 33 or b1 == 34 or b1 == 35 or 37 <= b1 <= 126)
+    vpre: 33 <= a0 <= 126 and a0 != 36 and 33 <= a1 <= 126 and a1 != 36
+    vpre: 33 <= b0 <= 126 and b0 != 36 and 33 <= b1 <= 126 and b1 != 36
     vpost: _ == True
     """
     s1 = S(*((a0, a1)[:n1]))
@@ -215,4 +238,63 @@ specialise(
     symbolic="text segments s1, s2 (lengths n1, n2 <= 2, printable ASCII minus '$' and space) around one ${q0} reference",
     bounds="channels: inline label, inline hint, itext label; escaped text shorter than 'instance('",
     weight=150,
+)
+
+
+
+ENTITY_LIKE = ["&amp;", "&lt;", "&gt;", "&quot;", "&apos;", "&#38;", "&#x26;", "&nbsp;", "AT&T;"]
+
+
+def c06_entity_ref(ch: int, ei: int, with_ref: bool, c0: int) -> bool:
+    """
+    vpre: 0 <= ei <= 8
+    vpre: 33 <= c0 <= 126 and c0 != 36
+    vpost: _ == True
+    """
+    e = ENTITY_LIKE[ei]
+    t = "a " + e + " b" + (" ${q0}" if with_ref else "")  # concrete: cells holding a reference reach the C lexer
+    q0 = {"type": "text", "name": "q0", "label": S(c0, 65)}  # tracer on another row
+    if ch == 0:
+        wb = {"survey": [q0, dict(Q, label=t)]}
+    elif ch == 1:
+        wb = {"survey": [q0, dict(Q, hint=t)]}
+    elif ch == 2:
+        wb = {"survey": [q0, {"type": "text", "name": "q1", "label::L1": t}]}
+    else:
+        wb = {"survey": [q0, dict(Q, constraint=". != 1", constraint_message=t)]}
+    survey, _w, _js = build_survey(wb)
+    root = survey.xml()
+    if ch == 0:
+        el = [x for x in elements(root, "input") if x.getAttribute("ref") == "/data/q1"][0].getElementsByTagName("label")[0]
+    elif ch == 1:
+        el = elements(root, "hint")[0]
+    elif ch == 2:
+        el = [v for v in elements(elements(root, "itext")[0], "value")][0]
+    else:
+        if with_ref:
+            el = [v for v in elements(elements(root, "itext")[0], "value")][0]
+        else:
+            b = [x for x in elements(root, "bind") if x.getAttribute("nodeset") == "/data/q1"][0]
+            return xmlmodel.parse(b.toxml()).documentElement.getAttribute("jr:constraintMsg") == t
+    back = xmlmodel.parse(el.toxml()).documentElement
+    txt = "".join(c if isinstance(c, str) else "" for c in tree(back)[2])
+    want = "a " + e + " b"
+    if txt.strip() != want:
+        return False
+    outs = [c for c in child_elements(back) if c.tagName == "output"]
+    return len(outs) == (1 if with_ref else 0) and len(child_elements(back)) == len(outs)
+
+
+specialise(
+    "C06",
+    "f.entity-like",
+    c06_entity_ref,
+    {"ch": [0, 1, 2, 3], "with_ref": [False, True]},
+    reach_if=lambda fx: fx["ch"] == 0,
+    timeout=300,
+    kernel=K,
+    shims=("S1", "S2", "S3", "S4", "S5", "S9"),
+    symbolic="entity-like sequence chosen by a symbolic index from 9 (predefined entities, character references, &nbsp;, AT&T;); tracer character on another row; the cell with the reference is concrete (C lexer)",
+    bounds="channel (label, hint, itext label, constraint message) and presence of a ${q0} reference fixed per instance",
+    weight=40,
 )
